@@ -175,6 +175,7 @@ func init() {
 	}})
 	reg(&checkSpec{ID: "C16", Assumptions: append([]string{"gorilla/mux route matching is outside the claim (mux.Vars returns the symbolic id)", "log-list order: the stores are iterated in insertion order by the engine; JSON encoding of a string list is an injective constructor"}, commonAssumptions...), Runs: []runSpec{
 		{Harness: pkgHTTP + ".VerifReadAPI", Quick: p("logs", 2, "signers", 1, "maxproof", 1, "steps", 1, "store", 0), Thorough: p("logs", 3, "signers", 2, "maxproof", 2, "steps", 1, "store", 0), Covers: []string{"http/found", "http/unknown-id", "http/known-id-nothing-stored", "http/first-accept-adds-entry", "http/refused-first-submission"}},
+		{Harness: pkgHTTP + ".VerifReadAPI", Quick: p("logs", 1, "signers", 1, "maxproof", 0, "steps", 0, "store", 1, "getfaults", 1), Thorough: p("logs", 2, "signers", 1, "maxproof", 0, "steps", 0, "store", 1, "getfaults", 1), Covers: []string{"http/read-fault"}},
 		{Harness: pkgHTTP + ".VerifReadAPI", Quick: p("logs", 1, "signers", 1, "maxproof", 1, "steps", 2, "store", 0), Thorough: p("logs", 2, "signers", 1, "maxproof", 1, "steps", 2, "store", 0), Covers: []string{"http/found", "http/first-accept-adds-entry", "http/refused-first-submission", "http/second-update-accepted"}},
 		{Harness: pkgHTTP + ".VerifReadAPI", Quick: p("logs", 2, "signers", 1, "maxproof", 1, "steps", 1, "store", 1), Thorough: p("logs", 3, "signers", 2, "maxproof", 2, "steps", 1, "store", 1), Covers: []string{"http/found", "http/unknown-id", "http/known-id-nothing-stored", "http/first-accept-adds-entry", "http/refused-first-submission"}},
 		{Harness: pkgHTTP + ".VerifReadAPI", Quick: p("logs", 1, "signers", 1, "maxproof", 1, "steps", 2, "store", 1), Thorough: p("logs", 2, "signers", 1, "maxproof", 1, "steps", 2, "store", 1), Covers: []string{"http/found", "http/first-accept-adds-entry", "http/refused-first-submission", "http/second-update-accepted"}},
@@ -362,6 +363,18 @@ func cmdCheck(args []string) int {
 		}
 		knownSeen = append(knownSeen, rep.KnownSeen...)
 		nViol += len(rep.Violations)
+		if os.Getenv("WSYM_STOP_ON_VIOLATION") != "" {
+			// regression-matrix mode (tools/seedmatrix.sh): one solid violation decides the run
+			solid := false
+			for _, v := range rep.Violations {
+				if len(v.Weak) == 0 {
+					solid = true
+				}
+			}
+			if solid {
+				break
+			}
+		}
 	}
 
 	// ---- native replay of cover witnesses (translator validation) ----
